@@ -56,6 +56,14 @@ def run(ctx):
         n = rng.choice([1, 2, 3, 4, 6, 9])
         sim = rand_system(rebound, rng, n, test_particles=rng.choice([0, 0, 1, 2]) if n > 3 else 0)
         kind = k % 4
+        real = None
+        if kind != 3 and rng.random() < 0.3 and n >= 2:
+            # the diagnostics are defined over the REAL particles: variational particles must not enter them
+            real = plist(sim)
+            for _ in range(rng.choice([1, 2])):
+                v = sim.add_variation()
+                for q in v.particles:
+                    q.m = rng.uniform(-1, 1); q.x, q.y, q.z, q.vx, q.vy, q.vz = [rng.uniform(-3, 3) for _ in range(6)]
         if kind == 0:
             nact = rng.choice([-1, -1, rng.randint(1, n)])
             sim.N_active = nact
@@ -64,13 +72,13 @@ def run(ctx):
             _nact = n if nact == -1 else nact
             ninter = _nact if sim.testparticle_type == 0 else n
             got = [sim.energy()]
-            term = "(energyF %s %s %d %d %s)" % (vlib.fhex(sim.G), ll(plist(sim)), _nact, ninter, vlib.fhex(sim.energy_offset))
+            term = "(energyF %s %s %d %d %s)" % (vlib.fhex(sim.G), ll(real or plist(sim)), _nact, ninter, vlib.fhex(sim.energy_offset))
         elif kind == 1:
             L = sim.angular_momentum(); got = [L.x, L.y, L.z]
-            term = "(angmomF %s)" % ll(plist(sim))
+            term = "(angmomF %s)" % ll(real or plist(sim))
         elif kind == 2:
             c = sim.com(); got = [c.m, c.x, c.y, c.z, c.vx, c.vy, c.vz]
-            term = "(comF %s)" % ll(plist(sim))
+            term = "(comF %s)" % ll(real or plist(sim))
         else:
             sim.integrator = "leapfrog"; sim.dt = rng.choice([1, -1]) * rng.uniform(1e-3, 0.1)
             before = plist(sim)
